@@ -251,7 +251,9 @@ def generate(rng, tier, shard, nshards):
     n = 1200 if tier == 'quick' else 40000
     for i in range(n):
         r = rng.random()
-        if r < 0.25:
+        if r < 0.03:
+            yield {'lane': 'compound-ctor', 'sky': rng.random() < 0.4, 'rs': rng.randrange(2 ** 31)}
+        elif r < 0.25:
             cls = rng.choice(REGION_CLASSES)
             yield {'lane': 'ctor-invalid', 'cls': cls, 'rs': rng.randrange(2 ** 31)}
         elif r < 0.65:
@@ -274,6 +276,8 @@ def run_case(case, obs):
     lane = case['lane']
     if lane == 'ctor-invalid':
         return run_ctor(case, obs, prng)
+    if lane == 'compound-ctor':
+        return run_compound_ctor(case, obs, prng)
     if lane == 'history':
         return run_history(case, obs, prng)
     if lane == 'meta':
@@ -281,6 +285,38 @@ def run_case(case, obs):
     if lane == 'regions-list':
         return run_regions(case, obs, prng)
     return run_mask_bbox(case, obs, prng)
+
+
+def run_compound_ctor(case, obs, prng):
+    """a compound is built from two regions of its own kind: anything else as either operand is rejected with ValueError / TypeError,
+    whether or not meta / visual are given."""
+    import operator
+    import regions
+    import astropy.units as u
+    from astropy.coordinates import SkyCoord
+    if case['sky']:
+        cls, good = regions.CompoundSkyRegion, regions.CircleSkyRegion(SkyCoord(10, 20, unit='deg'), 1 * u.deg)
+        wrong_kind = regions.CirclePixelRegion(regions.PixCoord(1, 2), 3)
+    else:
+        cls, good = regions.CompoundPixelRegion, regions.CirclePixelRegion(regions.PixCoord(1, 2), 3)
+        wrong_kind = regions.CircleSkyRegion(SkyCoord(10, 20, unit='deg'), 1 * u.deg)
+    bads = [None, 2.5, 'circle', [good], regions.PixCoord(1, 2), object(), wrong_kind, regions.RegionMeta(), regions.Regions([good])]
+    for bad in bads:
+        for pos in (0, 1):
+            for given in ({}, {'meta': regions.RegionMeta({'label': 'x'})}, {'meta': regions.RegionMeta(), 'visual': regions.RegionVisual()}):
+                args = (bad, good) if pos == 0 else (good, bad)
+                obs.count('compound-ctor-invalid-operand')
+                try:
+                    r = cls(*args, prng.choice([operator.and_, operator.or_, operator.xor]), **given)
+                except REJECT:
+                    obs.ok(1, 'ctor-invalid-rejected')
+                    continue
+                except Exception as exc:
+                    obs.violation('ctor-wrong-exception-type', f'{cls.__name__}(operand {pos + 1} = {type(bad).__name__}, {sorted(given)}) raised '
+                                  f'{type(exc).__name__}: {exc}')
+                    continue
+                obs.violation('ctor-accepts-invalid:' + ('skyregion' if case['sky'] else 'pixregion'),
+                              f'{cls.__name__}(operand {pos + 1} = {bad!r}) was accepted: {r!r}'[:300])
 
 
 def ctor_kwargs(spec):
